@@ -83,14 +83,13 @@ ALL_M = ["C04"]
 for f in F:
     if f["rule"] in ("M2", "M3"):
         f["properties"] = sorted(set(f["properties"] + ALL_M))
-finding(["C10"], "L1", "tensor.(StdEng).denseRepeat@fastCopyDenseRepeat( ?$t.RequiresIterator()", "denseRepeat block-copies from the operand's raw storage without consulting its layout: Repeat(a[:,1:3],1,2) is wrong", "without a test of $t.RequiresIterator()", 32)
-finding(["C10"], "L1", "tensor.(StdEng).denseRepeat@copyDenseSliced( ?$t.RequiresIterator()", "denseRepeat block-copies from the operand's raw storage without consulting its layout", "without a test of $t.RequiresIterator()", 32)
 finding(["C14"], "F1", "tensor.numpyDtypes[Int64]", "Int64 is written as i8, which the reader maps to Int on 64-bit: an int64 tensor read back has dtype int (and ReadNpy then fails)", "Int64->i8->Int", 43)
 finding(["C14"], "F1", "tensor.numpyDtypes[Uint64]", "Uint64 is written as u8, which the reader maps to Uint on 64-bit", "Uint64->u8->Uint", 43)
 finding(["C14"], "F1", "tensor.numpyDtypes[Int32]", "GOARCH=386: Int32 is written as i4, which the reader maps to Int", "Int32->i4->Int", 43)
 finding(["C14"], "F1", "tensor.numpyDtypes[Uint32]", "GOARCH=386: Uint32 is written as u4, which the reader maps to Uint", "Uint32->u4->Uint", 43)
 
 FIXED = [
+ {"property":"C10","commit":"bde2a07","rule":"L1","key":"tensor.(StdEng).denseRepeat@fastCopyDenseRepeat(, tensor.(StdEng).denseRepeat@copyDenseSliced(","what":"fixed: property=C10 bde2a07 denseRepeat block-copied from the operand's raw storage without consulting its layout: Repeat(a[:,1:3],1,2) was wrong (DESIGN finding 32)"},
  {"property":"C14","commit":"a2e7ce2","rule":"L1","key":"tensor.(*Dense).GobEncode@.Encode(&%data) ?$r.IsMaterializable()","what":"fixed: property=C14 a2e7ce2 GobEncode of a view wrote the whole storage window under the view's shape; GobDecode's sanity check rejected it (expected (3), got 7) (DESIGN finding 28)"},
  {"property":"C20","commit":"687421a","rule":"L3","key":"tensor.(Float32Engine).Add@V., tensor.(Float64Engine).Add@V. ⊨ $a.DataOrder().HasSameOrder($b.DataOrder())","what":"fixed: property=C20 687421a Float32Engine/Float64Engine.Add added a row-major and a column-major operand position by position ([0 4 3 7 6 10]) (DESIGN finding 21)"},
  {"property":"C08","commit":"e0ae783","rule":"L1","key":"tensor.(StdEng).argmaxDenseTensor@$r.E.ArgmaxFlat(, tensor.(StdEng).argminDenseTensor@$r.E.ArgminFlat(","what":"fixed: property=C08 e0ae783 Argmax/Argmin over all axes scanned the raw storage window: wrong index for views and lazily transposed tensors (DESIGN finding 38)"},
